@@ -913,6 +913,9 @@ class Interp(CallMixin):
                                 continue
                             except (ValueError, TypeError) as err_:
                                 self.raise_(type(err_).__name__, str(err_))
+                        if isinstance(v, Opaque) and v.kind in ("builtins.int", "builtins.float") and isinstance(spec, str):
+                            acc = strt_concat(acc, StrT((Opaque(f"format({v.label}, {spec!r})"),)))  # some text for a number that is not known
+                            continue
                         if spec not in ("", "s") or (spec == "s" and not isinstance(v, StrT)):
                             self.unsupported(part, frame, f"format spec {spec!r} on {v!r}")
                     acc = strt_concat(acc, v if isinstance(v, (str, StrT)) else self.to_str(v, part, frame))
@@ -961,7 +964,7 @@ class Interp(CallMixin):
         return out
 
     def hashable(self, k: Any, node: ast.AST, frame: Optional[Frame]) -> Any:
-        if isinstance(k, (str, int, bool, EnumVal, tuple, StrT)) or k is None:
+        if isinstance(k, (str, int, bool, EnumVal, tuple, StrT, ClassVal, frozenset)) or k is None:
             return k
         raise Unsupported(f"unhashable/opaque dict key {k!r} at line {getattr(node, 'lineno', '?')}")
 
@@ -1100,6 +1103,20 @@ class Interp(CallMixin):
             m = self.model.find_method(self.model.classes[a.cls], "__sub__")
             if m is not None:
                 return self.call(FuncVal(fn=m, self_obj=a, module=m.module), [b], {}, node, frame)
+        if isinstance(op, (ast.Add, ast.Sub, ast.Mult, ast.Div, ast.FloorDiv, ast.Mod, ast.Pow)):
+            num = lambda x_: isinstance(x_, (int, float)) and not isinstance(x_, bool)  # noqa: E731
+            onum = lambda x_: isinstance(x_, Opaque) and x_.kind in ("builtins.int", "builtins.float")  # noqa: E731
+            if (onum(a) and (num(b) or onum(b))) or (onum(b) and num(a)) or (isinstance(a, Opaque) and a.kind is None and num(b)) or (isinstance(b, Opaque) and b.kind is None and num(a)):
+                key_ = ("arith", type(op).__name__, getattr(a, "oid", a), getattr(b, "oid", b))
+                if key_ not in self.attr_memo:  # a number that is not known: the same operands give the same unknown
+                    self.attr_memo[key_] = Opaque(f"({getattr(a, 'label', a)} {type(op).__name__} {getattr(b, 'label', b)})", kind="builtins.float" if isinstance(op, ast.Div) else "builtins.int")
+                return self.attr_memo[key_]
+            if isinstance(op, ast.Div) and num(a) and num(b):
+                if b == 0:
+                    self.raise_("ZeroDivisionError", "division by zero")
+                return a / b
+            if isinstance(op, (ast.Sub, ast.Mult)) and num(a) and num(b):
+                return a - b if isinstance(op, ast.Sub) else a * b
         if isinstance(op, (ast.Sub, ast.Mult, ast.FloorDiv, ast.Mod)) and isinstance(a, int) and isinstance(b, int):
             return {ast.Sub: a - b, ast.Mult: a * b, ast.FloorDiv: a // b if b else 0, ast.Mod: a % b if b else 0}[type(op)]
         if isinstance(op, ast.Mod) and isinstance(a, str):
